@@ -454,7 +454,13 @@ type logObjectMarshalerWrapper struct {
 }
 
 // MarshalLogObject implements the zapcore.ObjectMarshaler interface.
-func (mom logObjectMarshalerWrapper) MarshalLogObject(_ zapcore.ObjectEncoder) error {
+func (mom logObjectMarshalerWrapper) MarshalLogObject(enc zapcore.ObjectEncoder) error {
+	// the wrapped encoder hands us the encoder the object's fields
+	// belong in: itself, or, if it is a filter encoder too, its copy
+	// that knows the key path of this object
+	if wrapped, ok := enc.(zapcore.Encoder); ok {
+		mom.enc.wrapped = wrapped
+	}
 	return mom.marsh.MarshalLogObject(mom.enc)
 }
 
